@@ -29,6 +29,7 @@ type RealmCfg struct {
 	Kill       bool      `json:"kill,omitempty"`
 	Modify     bool      `json:"modify,omitempty"`
 	LocalAuthz bool      `json:"local_authz,omitempty"`
+	LocalAuth  bool      `json:"local_auth,omitempty"` // RequireLocalAuth: in-process sessions authenticate like remote ones (anonymous)
 	Hist       []HistCfg `json:"hist,omitempty"`
 	Rules      []Rule    `json:"rules,omitempty"`
 }
@@ -61,6 +62,7 @@ type Op struct {
 	Realm int    `json:"r"`
 	Sess  int    `json:"s"`
 	Local bool   `json:"local,omitempty"`
+	AuthLocal bool `json:"auth_local,omitempty"` // join of a local session in a realm with RequireLocalAuth
 	Hello Val    `json:"hello"`
 	Transport Val `json:"transport"` // join: transport details given to AttachClient (nil = none)
 	Ms    int64  `json:"ms,omitempty"`
@@ -147,7 +149,10 @@ func modelLine(cmd string, op *Op, oracle int) string {
 	switch op.Kind {
 	case "join":
 		l := 0
-		if op.Local {
+		if op.Local && !op.AuthLocal {
+			// an in-process session that had to authenticate is, for the model,
+			// a remote one (anonymous identity, no exemption from authorization:
+			// the generator pairs RequireLocalAuth with RequireLocalAuthz)
 			l = 1
 		}
 		fmt.Fprintf(&sb, "join %d %d ", modelSid(op.Sess), l)
